@@ -120,7 +120,7 @@ package httpserver
 //@   ensures [streaming_body_goes_to_the_client] rb.stream ==> (directCopies == old(directCopies) + 1 && bufferedCopies == old(bufferedCopies))
 //@   ensures [buffered_body_goes_to_the_buffer] !rb.stream ==> (bufferedCopies == old(bufferedCopies) + 1 && directCopies == old(directCopies))
 
-//@ unit redirect_site frames=on props=C15,C02 filter=`httpserver\.redirPlaintextHost$`
+//@ unit redirect_site frames=on props=C15,C02,C01 filter=`httpserver\.redirPlaintextHost$`
 //@ // the synthesised HTTP site answers for the WHOLE host on the HTTP port (no path: every plaintext request to that host is
 //@ // redirected, with its own URI), carries exactly the redirect middleware, and shares the HTTPS site's certificate manager
 //@ extern strconv.Itoa
